@@ -309,3 +309,41 @@ Proof.
 Qed.
 
 End Posted.
+
+(* ------------------------------------------------------------------ statements on the model's own run_pending *)
+Section Pending.
+Context {W : Type}.
+Implicit Types s : st W.
+
+(* the entries fired by a call of run_pending, in order *)
+Definition pending_fired (tb : table W) (fuel : nat) (t : Q) (n : nat) s : list entry :=
+  snd (run_pendingL tb fuel t n s).
+
+Lemma run_pending_L tb fuel t n s n' s' : run_pending tb fuel t n s = (n', s') ->
+  run_pendingL tb fuel t n s = (n', s', pending_fired tb fuel t n s).
+Proof.
+  intros H. rewrite <- run_pendingL_fst in H. unfold pending_fired.
+  destruct (run_pendingL tb fuel t n s) as [[a b] c]. cbn in *. congruence.
+Qed.
+
+Lemma gone_query p t e k s : gone_st (the_id k s) s -> ids s <> [] ->
+  do_action p t e (AQuery k) s = emit (OQuery (the_id k s) None) s.
+Proof. intros [_ G] Hi. rewrite (query_spec p t e k s Hi), G. reflexivity. Qed.
+
+Lemma gone_unpost p t e k fatal s : gone_st (the_id k s) s -> ids s <> [] ->
+  do_action p t e (AUnpost k fatal) s = emit (OUnpost (the_id k s) (if fatal then None else Some None)) s.
+Proof. intros [_ G] Hi. apply unpost_dead; assumption. Qed.
+
+Lemma run_pending_count tb fuel t n s n' s' : run_pending tb fuel t n s = (n', s') ->
+  n' = (n + length (pending_fired tb fuel t n s))%nat.
+Proof.
+  intros H. apply run_pending_L in H. revert H. generalize (pending_fired tb fuel t n s). intros l H.
+  revert n s n' s' l H. induction fuel as [|f IH]; intros n s n' s' l; cbn [run_pendingL].
+  - intros [= <- <- <-]. cbn. lia.
+  - destruct (head (queue (discard s))) as [h|]; [|intros [= <- <- <-]; cbn; lia].
+    destruct (Qle_bool (e_time h) t); [|intros [= <- <- <-]; cbn; lia].
+    destruct (run_pendingL tb f t (S n) _) as [[n1 s1] l1] eqn:E. intros [= <- <- <-].
+    apply IH in E. cbn. lia.
+Qed.
+
+End Pending.
